@@ -980,10 +980,12 @@ impl Light {
             Expect::Refusal("no_items")
         } else if items.len() > 1000 {
             Expect::Refusal("over_limit")
+        } else if has_dup {
+            // (the server answers with the tip state when last_hash is not on the main chain and
+            // bans otherwise; both are acceptable for a request that names a hash twice)
+            Expect::Refusal("duplicate_hash")
         } else if l_num.is_none() {
             Expect::Reply
-        } else if has_dup {
-            Expect::Refusal("duplicate_hash")
         } else if classes.contains(&ItemClass::MainAtOrAbove) {
             Expect::Unprovable("item_at_or_above_last")
         } else {
@@ -1296,10 +1298,16 @@ impl Light {
             }
         }
         let dup_suffix = if variant == "duplicate" { "@duplicate_tx_hash_requested" } else { "" };
+        let has_dup = {
+            let mut s = HashSet::new();
+            !items.iter().all(|x| s.insert(*x))
+        };
         let exp = if items.is_empty() {
             Expect::Refusal("no_items")
         } else if items.len() > 1000 {
             Expect::Refusal("over_limit")
+        } else if has_dup {
+            Expect::Refusal("duplicate_hash")
         } else if l_num.is_none() {
             Expect::Reply
         } else if classes.contains(&ItemClass::MainAtOrAbove) {
@@ -1308,9 +1316,10 @@ impl Light {
             Expect::Reply
         };
         let cause = match exp {
-            Expect::Refusal(w) => w,
+            Expect::Refusal(w) if w != "duplicate_hash" => w,
             _ if lclass == LastClass::Genesis => "last_hash_genesis",
-            _ if variant == "duplicate" && l_num.is_some() => "duplicate_tx_hash",
+            _ if has_dup => "duplicate_tx_hash",
+            Expect::Refusal(w) => w,
             Expect::Unprovable(w) => w,
             Expect::Reply => "valid_request",
         };
